@@ -10,11 +10,14 @@
 EXTENDS MonRoute
 
 Init == [i |-> 0, viol |-> {}, R |-> RInit,
-         exp |-> <<>>]          \* answers the probe still expects: [c, key, rc, due]
+         exp |-> <<>>,          \* answers the probe still expects: [c, key, rc, due]
+         n   |-> [a \in MApps |-> 0]]   \* handler invocations per application so far
 
 \* what a fresh node does with a valid request for a registered application, by handler kind
 Handler(a) == MCfg.apps[a].handler
-ExpectRc(a) == CASE Handler(a) = "answer" -> 2001 [] Handler(a) = "slow" -> 2001 [] Handler(a) = "raise" -> 5012 [] OTHER -> 0
+\* (k = number of handler invocations of the application before this request; the "alt" handler answers every second one)
+ExpectRc(a, k) == CASE Handler(a) = "answer" -> 2001 [] Handler(a) = "slow" -> 2001 [] Handler(a) = "raise" -> 5012
+                    [] Handler(a) = "alt" -> (IF (k + 1) % 2 = 0 THEN 2001 ELSE 0) [] OTHER -> 0
 Delay(a) == IF Handler(a) = "slow" THEN 3 ELSE 0
 
 StepN(M, st) ==
@@ -35,8 +38,9 @@ StepN(M, st) ==
       app == CHOOSE x \in apps : TRUE
       vDeliv == IF probe = "req" /\ apps # {} /\ Ev(LAMBDA e : e.ev = "app_req" /\ Key(e.m) = Key(m)) = {}
                 THEN {"probe_request_not_delivered_to_handler"} ELSE {}
-      expNew == IF probe = "req" /\ apps # {} /\ ExpectRc(app) # 0
-                THEN <<[c |-> a.c, key |-> Key(m), rc |-> ExpectRc(app), due |-> now + Delay(app)]>> ELSE <<>>
+      expNew == IF probe = "req" /\ apps # {} /\ ExpectRc(app, M0.n[app]) # 0
+                THEN <<[c |-> a.c, key |-> Key(m), rc |-> ExpectRc(app, M0.n[app]), due |-> now + Delay(app)]>> ELSE <<>>
+      n1 == [x \in MApps |-> M0.n[x] + Cardinality(Ev(LAMBDA e : e.ev = "app_req" /\ e.a = x))]
       \* answers transmitted now settle expectations (with the expected result), or are wrong
       exp1 == M0.exp \o expNew
       answered(x) == Ev(LAMBDA e : e.ev = "tx" /\ e.c = x.c /\ ~e.m.req /\ Key(e.m) = x.key) # {}
@@ -46,6 +50,6 @@ StepN(M, st) ==
       vLate == IF \E k \in 1..Len(exp2) : now > exp2[k].due \/ (probe = "end") THEN {"probe_request_not_answered"} ELSE {}
       exp3 == SelectSeq(exp2, LAMBDA x : now <= x.due /\ probe # "end")
       sigs == vExit \cup vCer \cup vDeliv \cup vWrong \cup vLate
-  IN [M0 EXCEPT !.viol = @ \cup {[sig |-> s, at |-> M0.i] : s \in sigs}, !.R = RUpdate(M0.R, st), !.exp = exp3]
+  IN [M0 EXCEPT !.viol = @ \cup {[sig |-> s, at |-> M0.i] : s \in sigs}, !.R = RUpdate(M0.R, st), !.exp = exp3, !.n = n1]
 Step(M, s0) == StepN(M, Norm(s0))
 =============================================================================
